@@ -80,7 +80,9 @@ def corpus_sources(tier, rnd):
         sorted(glob.glob("/repo/laythe_vm/fixture/std_lib/**/*.lay", recursive=True))
     if tier == "quick" and len(files) > 400:
         files = rnd.sample(files, 400)
-    return [("file:" + os.path.relpath(f, "/repo/laythe_vm/fixture"), open(f).read()) for f in files]
+    import gen
+    generated = gen.family_sources(rnd, 400 if tier == "quick" else 8000)
+    return [("file:" + os.path.relpath(f, "/repo/laythe_vm/fixture"), open(f).read()) for f in files] + generated
 
 
 def fun_records(cid, dump):
